@@ -202,6 +202,11 @@ pub fn strategy(_t: Tier) -> BoxedStrategy<Case> {
             let sigma_target = if psk8 { 0.03 + 0.03 * sfrac } else { 0.10 + 0.08 * sfrac };
             Case { h: systematic_h(r, n, &h0, &tail, staircase, &fix), pattern, interleaver, psk8, sigma_target: Fx(sigma_target), via_builder }
         })
+        .prop_flat_map(|c| (shuffled(Just(c.h.clone())), Just(c)))
+        .prop_map(|(h, mut c)| {
+            c.h = h;
+            c
+        })
         .boxed()
 }
 
@@ -261,20 +266,35 @@ pub fn check(c: &Case, p: &mut Probe) -> Check {
     };
     // transmitted order -> codeword position
     let kept_pos: Vec<usize> = (0..n).filter(|&i| !punct[i]).collect();
-    let tx_to_cw: Vec<usize> = match c.interleaver {
-        None => kept_pos.clone(),
-        Some(cols) => {
-            let cc = cols.unsigned_abs();
-            let rr = kept / cc;
-            (0..kept)
-                .map(|o| {
-                    let (rw, cl) = (o / cc, o % cc);
-                    let cl = if cols < 0 { cc - 1 - cl } else { cl };
-                    kept_pos[cl * rr + rw]
-                })
-                .collect()
-        }
+    let order_for = |cols: isize| -> Vec<usize> {
+        let cc = cols.unsigned_abs();
+        let rr = kept / cc;
+        (0..kept)
+            .map(|o| {
+                let (rw, cl) = (o / cc, o % cc);
+                let cl = if cols < 0 { cc - 1 - cl } else { cl };
+                kept_pos[cl * rr + rw]
+            })
+            .collect()
     };
+    let mut tx_to_cw: Vec<usize> = match c.interleaver {
+        None => kept_pos.clone(),
+        Some(cols) => order_for(cols),
+    };
+    // Which reading direction a sign of the column count selects is the interleaver's business
+    // (C15) and is not observable at the decoder; for 8PSK the symbol grouping is therefore
+    // taken from the data: if the requested direction does not group the first frame into
+    // invertible LLR triples, the opposite direction is tried before anything is judged.
+    if let (true, Some(cols), Some(f0)) = (c.psk8, c.interleaver, frames.first()) {
+        let ok = |order: &Vec<usize>| (0..kept / 3).filter(|&s| invert([f0[order[3 * s]], f0[order[3 * s + 1]], f0[order[3 * s + 2]]]).is_some()).count() * 10 >= (kept / 3) * 9;
+        if f0.len() == n && !ok(&tx_to_cw) {
+            let alt = order_for(-cols);
+            if ok(&alt) {
+                tx_to_cw = alt;
+                p.class("symbol-grouping-opposite-direction");
+            }
+        }
+    }
     let hb = c.h.to_bits();
     let tail = hb.submatrix_cols(k, n);
     let info_punctured = punct[..k].iter().any(|&b| b);
@@ -326,6 +346,9 @@ pub fn check(c: &Case, p: &mut Probe) -> Check {
                 let l = [f[tx_to_cw[3 * s]], f[tx_to_cw[3 * s + 1]], f[tx_to_cw[3 * s + 2]]];
                 let Some(z) = invert(l) else {
                     nonconv += 1;
+                    // LLR triples that are not the LLRs of any received sample: the frame is not in
+                    // transmitted symbol order (fail fast, the inversion of garbage is slow)
+                    ensure!(nonconv < 30, "inversion", "{nonconv} 8PSK LLR triples (of {} examined) are not the LLRs of any received sample: frames are not grouped in transmitted symbol order {ctx}", cnt + nonconv);
                     continue;
                 };
                 let y = (z.0 * sigma_e * sigma_e, z.1 * sigma_e * sigma_e);
